@@ -152,16 +152,17 @@ type Op struct {
 func (o Op) String() string { return o.K + fmt.Sprintf("%q", o.A) }
 
 var writeFlags = []int{os.O_WRONLY, os.O_RDWR, os.O_RDWR | os.O_CREATE, os.O_WRONLY | os.O_CREATE | os.O_TRUNC,
-	os.O_RDWR | os.O_CREATE | os.O_EXCL, os.O_WRONLY | os.O_APPEND, os.O_RDWR | os.O_TRUNC, os.O_WRONLY | os.O_CREATE | os.O_APPEND}
+	os.O_RDWR | os.O_CREATE | os.O_EXCL, os.O_WRONLY | os.O_APPEND, os.O_RDWR | os.O_TRUNC, os.O_WRONLY | os.O_CREATE | os.O_APPEND,
+	os.O_RDONLY | os.O_CREATE, os.O_RDONLY | os.O_CREATE | os.O_EXCL}
 
 type OpGen struct {
 	Orig      map[string]Entry // the initial tree: lets metadata operations return to original values
-	Mutating  []string // kinds to draw mutators from
-	ReadOnly  bool     // include read-only operations
-	Focus     string   // when set, most operations name this path (same-path interplay)
-	Unclean   bool     // unclean spellings
-	Relative  bool     // relative spellings
-	NoSpecial bool     // no set-id / sticky bits, root owner only
+	Mutating  []string         // kinds to draw mutators from
+	ReadOnly  bool             // include read-only operations
+	Focus     string           // when set, most operations name this path (same-path interplay)
+	Unclean   bool             // unclean spellings
+	Relative  bool             // relative spellings
+	NoSpecial bool             // no set-id / sticky bits, root owner only
 }
 
 var allMutators = []string{"creat", "write", "mkdir", "mkdirall", "remove", "removeall", "rename", "symlink", "chmod", "chown", "lchown", "chtimes"}
